@@ -531,7 +531,7 @@ def _check(run, pid):
         seed, first, nworlds = rp["seed"], rp["world"], 1
     else:
         seed, first = run.seed, 0
-    if pid in ("C02", "C15") and not run.replay:
+    if pid in ("C02", "C07", "C15") and not run.replay:
         # the implementation-shaped model of the generator (XoCapi): model-level refinement, spec -> code program comparison,
         # code -> spec execution of the parsed real programs by TLC over an enumerated type grammar
         from . import capimc
